@@ -97,11 +97,29 @@ PROPS["C19"]["rule"] += ("; slice staking-det: a staking history (several delega
                          "and again on a fresh App 2, with a hash of the complete raw root storage after every op; predicate: both transcripts "
                          "including the hashes are identical")
 
+PROPS["C19"]["slices"].append({"name": "wasm-bech-mix", "quick": 1200, "thorough": 20000,
+                               "predicate": "pred_c19_mix", "nontrivial": "nt_any"})
+PROPS["C19"]["rule"] += ("; slice wasm-bech-mix (instances of a different configuration in the same process): every case runs on fresh "
+                         "MockApiBech32m(\"juno\") Apps in a fresh thread (reference), then on MockApiBech32(\"juno\") Apps in the working thread "
+                         "(discarded), then on fresh MockApiBech32m(\"juno\") Apps in the working thread; predicate: reference and final transcript "
+                         "are identical line by line; the final transcript also equals the model")
+
 _STK_RULE = ("; slice wasm-stk: the same trees on an App with staking set up (bonded denom d1, two validators), containing StakingMsg / DistributionMsg "
              "sent by users and emitted by contracts (contracts as delegators), StakingSudo slashes, whole-second non-decreasing block changes incl. year jumps, "
              "staking queries from inside contracts; the staking module is the Lean model of CwMt/Model/Staking.lean plugged into the engine as a router module")
 for _p in ("C01", "C02", "C10"):
     PROPS[_p]["rule"] += _STK_RULE
+
+# tie T for the placement of write caches: checklib/tr_tx.py regenerates CwMt/Gen/TxSites.lean from app.rs / wasm.rs
+# on every run; theorem tx_sites_as_modelled (C01, C02) states it is the placement CwMt/Model/EngineTx.lean transcribes
+for _p in ("C01", "C02"):
+    PROPS[_p]["translators"] = ["tr_tx"]
+    PROPS[_p]["technique"] += (" + refinement theorem: the engine written with in-place writes and early returns (EngineTx, arbitrary dirt left by "
+                               "failing steps, `transactional` only where the sources have it — table regenerated from app.rs/wasm.rs on every run) "
+                               "has exactly the results and persisted states of the value-semantics engine")
+    PROPS[_p]["trusted_base"] = list(PROPS[_p].get("trusted_base", [])) + [
+        "checklib/tr_tx.py (regex + bracket matching) extracts the transactional(..) call sites, the calls handed the cache / the base, and the "
+        "calls outside the closure handed the enclosing storage; that `transactionalI` of EngineTx.lean sits at those sites is by inspection of ~250 lines"]
 
 ENGINES = [
     {"name": "wasm", "path": "lean/CwMt/Model/{Engine,Registry,Wire,Bank}.lean + lean/CwMt/Driver/Wasm.lean + harness/src/{wasm,wasm_gen,wasm_gen2}.rs",
